@@ -7,7 +7,9 @@ R11.2 in Operator::eval the nine assignment variants are the constant Err(Contex
 R11.3 Operator::eval_mut forwards every non-assignment variant to Operator::eval with the same arguments and returns its result
       unchanged;
 R11.4 who-may-call: set_value (and any other `&mut self` context method) is called only from the assignment arms of eval_mut;
-R11.5 Node::eval_with_context and Node::eval_with_context_mut are structurally identical up to the _mut names.
+R11.5 Node::eval_with_context and Node::eval_with_context_mut satisfy the same evaluator specification (C08's) up to the dispatcher;
+R11.6 no assignment arm of eval_mut returns Ok without having called Context::set_value (shared with C04 R4.4), so contexts whose
+      set_value rejects reject every assignment, whatever the values.
 """
 import os
 import tables
@@ -114,6 +116,12 @@ def run(ctx):
             ctx.unrecognised('R11.5', 'Node::' + name, 'missing', 'evaluator not found')
             continue
         evaluator(_Renamed(ctx, 'R11.5'), prog, g, name, opname)
+    # R11.6 every assignment that the mutable route completes successfully has gone through Context::set_value, whatever values are
+    # involved: a context without variable storage rejects assignments in its set_value (R11.2: the default is the constant
+    # Err(ContextNotMutable)), so "rejects every assignment in the same way" needs that no assignment arm can return Ok without
+    # having called it (the C04 R4.4 case analysis of the nine assignment arms, reported here)
+    from rules.c04 import r44
+    r44(_Renamed(ctx, 'R11.6'), prog)
 
 
 def witness(ctx):
